@@ -494,3 +494,76 @@ def ownership_handoff(ctx, P, scope, rule="OWNERSHIP-HANDOFF", tus=None):
                        "after `%s` a path reaches the free of `%s` (lines %s) without `%s = NULL`: double free" %
                        (estr(x)[:60], name, " -> ".join(tu.loc(p_.ast).split(":")[-1] for p_ in wit if p_.ast is not None)[:60], name))
     return n
+
+
+NAN_CODES = ("TSK_ERR_SEEK_OUT_OF_BOUNDS", "TSK_ERR_BAD_WINDOWS", "TSK_ERR_POSITION_OUT_OF_BOUNDS")
+
+
+def guard_nan(ctx, P, rule="GUARD-NAN", tus=("trees",)):
+    """Range guards over caller-supplied genome coordinates (double) must be true for NaN."""
+    from sa.guards import find_guards
+    ctx.rule(rule, "a guard that protects a tree sweep from a caller-supplied genome coordinate (seek position, window breakpoints, "
+                   "two-locus positions: error codes SEEK_OUT_OF_BOUNDS, BAD_WINDOWS, POSITION_OUT_OF_BOUNDS) rejects NaN: for every "
+                   "double-typed parameter (or element of a double array parameter inside the loop over it) that such guards test, "
+                   "at least one of them evaluates to TRUE when that value is NaN (every ordered comparison with NaN is false, so "
+                   "`x < 0 || x >= L` lets NaN through and the sweep that follows never terminates, asserts, or reads unset memory; "
+                   "`!(x >= 0 && x < L)` and `!(w[j] < w[j + 1])` do not)")
+
+    def nan_eval(n, names):
+        n = strip(n)
+        if n is None:
+            return None
+        if n.k == "UnaryOperator" and n.op == "!":
+            v = nan_eval(n.kids[0], names)
+            return None if v is None else (not v)
+        if n.k == "BinaryOperator" and n.op in ("||", "&&"):
+            a, b = nan_eval(n.kids[0], names), nan_eval(n.kids[1], names)
+            if n.op == "||":
+                return True if (a is True or b is True) else False if (a is False and b is False) else None
+            return False if (a is False or b is False) else True if (a is True and b is True) else None
+        if n.k == "BinaryOperator" and n.op in ("<", "<=", ">", ">=", "==", "!="):
+            touched = any(any(y.k == "DeclRefExpr" and y.ref in names for y in walk(k_)) for k_ in n.kids[:2])
+            if not touched:
+                return None
+            return n.op == "!="
+        if n.k == "CallExpr":
+            c = callee(n) or ""
+            touched = any(y.k == "DeclRefExpr" and y.ref in names for y in walk(n))
+            if touched and "isfinite" in c:
+                return False
+            if touched and "isnan" in c:
+                return True
+        return None
+    n = 0
+    for key in tus:
+        tu = P.tus[key]
+        for fn in tu.funcs.values():
+            if fn.body is None:
+                continue
+            gs = [g for g in find_guards(P, fn) if set(g.codes) & set(NAN_CODES)]
+            if not gs:
+                continue
+            dparams = [p_ for p_ in fn.params if re.fullmatch(r"(const )?double( \*(restrict)?)?", (p_.ty or "").strip()) or (p_.ty or "").strip() in ("const double *", "double *", "double")]
+            for p_ in dparams:
+                if re.fullmatch(r"sequence_length|L", p_.name or ""):
+                    continue        # the bound, taken from the tree sequence, not a caller-supplied coordinate
+                is_ptr = "*" in (p_.ty or "")
+                mine = [g for g in gs if any(y.k == "DeclRefExpr" and y.ref == p_.name for y in walk(g.ifn.kids[0]))]
+                if not mine:
+                    continue
+                ok = False
+                for g in mine:
+                    if is_ptr:
+                        # only guards whose subscript is not a constant generalise over the elements
+                        subs = [y for y in walk(g.ifn.kids[0]) if y.k == "ArraySubscriptExpr" and estr(y.kids[0]) == p_.name]
+                        from sa.expr import const_int
+                        if not subs or all(const_int(y.kids[1]) is not None or estr(y.kids[1]) in ("num_windows", "num_positions") for y in subs):
+                            continue
+                    if nan_eval(g.ifn.kids[0], {p_.name}) is True:
+                        ok = True
+                n += 1
+                ctx.ob(rule, "%s|%s" % (fn.name, p_.name), ok, tu.loc(mine[0].ifn),
+                       "a NaN in `%s` is rejected" % p_.name if ok else
+                       "no guard on `%s` is true for NaN (%s): a NaN coordinate passes validation" % (p_.name, "; ".join(estr(g.ifn.kids[0])[:50] for g in mine[:3])))
+    ctx.floor(rule, 3)
+    return n
